@@ -8,15 +8,18 @@ Section P.
 Variable is_ns : list string -> bool.
 Variable has : list string -> string -> bool.
 Variable inner : string -> bool.
+Variable live : list string -> bool.
+(* a namespace from which a path of namespaces leads to a declaration is written into the output *)
+Hypothesis live_complete : forall n s r t' leaf', Scopes.walk is_ns (n :: s) r = Some t' -> has t' leaf' = true -> live (n :: s) = true.
 
 Notation walk := (walk is_ns).
 Notation find_in := (find_in is_ns has).
 Notation lookup := (lookup is_ns has).
 Notation lookup_from := (lookup_from is_ns has).
 Notation lookup_abs := (lookup_abs is_ns has).
-Notation hidden_ns := (hidden_ns is_ns has).
-Notation hidden := (hidden is_ns has inner).
-Notation emit := (emit is_ns has inner).
+Notation hidden_ns := (hidden_ns is_ns has live).
+Notation hidden := (hidden is_ns has inner live).
+Notation emit := (emit is_ns has inner live).
 Notation resolve := (resolve is_ns has).
 
 (* every namespace on the way from the root to t exists *)
@@ -56,7 +59,10 @@ Proof.
     assert (E : find_in (x :: p) (rev t) leaf = None).
     { unfold Scopes.find_in. destruct (rev t) as [|n r] eqn:Er.
       - cbn [hd] in *. cbn [Scopes.walk]. rewrite Hhas. reflexivity.
-      - cbn [hd] in *. cbn [Scopes.walk]. rewrite Hns. reflexivity. }
+      - cbn [hd] in *. cbn [Scopes.walk]. destruct (is_ns (n :: x :: p)) eqn:N; [|reflexivity].
+        cbn [andb] in Hns. destruct (walk (n :: x :: p) r) as [t'|] eqn:W; [|reflexivity].
+        destruct (has t' leaf) eqn:Ht; [|reflexivity].
+        rewrite (live_complete n (x :: p) r t' leaf W Ht) in Hns. discriminate. }
     rewrite E. apply IH. exact Hp.
 Qed.
 
